@@ -10,6 +10,7 @@ import (
 	"runtime"
 	"sort"
 	"strings"
+	"sync/atomic"
 	"time"
 
 	"github.com/prometheus/client_golang/prometheus"
@@ -213,7 +214,7 @@ func procsCase(c *Case, lean *LeanDriver) Verdict {
 		d.Procs = p
 		data := c.Data()
 		what := fmt.Sprintf("GOMAXPROCS=%d", p)
-		if p%2 == 0 {
+		if p != 1 {
 			r.Shuffle(len(data), func(i, j int) { data[i], data[j] = data[j], data[i] })
 			what += "+permuted"
 		}
@@ -230,12 +231,17 @@ func procsCase(c *Case, lean *LeanDriver) Verdict {
 		}
 		st := NewMemStorage(data)
 		if p%4 == 0 {
+			var iters int64
 			st.SetHook(func(kind string, n int64, info any) Action {
 				if n%7 == 0 {
 					runtime.Gosched()
 				}
-				if n%53 == 0 || kind == EvIterator {
+				if n%53 == 0 {
 					time.Sleep(50 * time.Microsecond)
+				}
+				if kind == EvIterator && atomic.AddInt64(&iters, 1) < 200 {
+					// widen the window between a loader obtaining its shard and reading it
+					time.Sleep(300 * time.Microsecond)
 				}
 				return Action{}
 			})
@@ -309,7 +315,9 @@ func hintsCase(c *Case, lean *LeanDriver) Verdict {
 	for _, o := range []string{"none", "default", "all"} {
 		d := c.clone()
 		d.Opt = o
-		full := execThanos(d, NewMemStorage(c.Data()))
+		fs := NewMemStorage(c.Data())
+		fs.NoTrimToQuerier = true // the baseline sees every sample
+		full := execThanos(d, fs)
 		ts := NewMemStorage(c.Data())
 		ts.TrimToHints = true
 		trimmed := execThanos(d, ts)
